@@ -33,7 +33,8 @@ def case_strategy(draw, tier):
         rec = draw(genheat.heat_net(max_n=4 if tier == "quick" else 7, labels=False, allow_oos=True))
         opts = draw(genheat.heat_options())
     else:
-        rec, opts = draw(gen.hyd_case(max_n=8 if tier == "quick" else 20, tight=True, labels=False, sectors=False, pi_every=3))
+        rec, opts = draw(gen.hyd_case(max_n=8 if tier == "quick" else 20, tight=True, labels=False, sectors=False, pi_every=3,
+                                      fm_weights=(10, 1, 1)))   # cases with laminar branches under the turbulent-only models are discards
         opts["mode"] = "hydraulics"
     rec.pop("row_order", None)
     tables = {}
@@ -61,7 +62,7 @@ def case_strategy(draw, tier):
         tau["creation"] = list(draw(st.permutations(list(range(len(rec["elements"]))))))
     if "sector" in kinds:
         tau["sector"] = "None" if rec.get("sector", "all") != "None" else "all"
-    return {"recipe": rec, "tau": _jsonable_tau(tau), "options": opts}
+    return {"recipe": rec, "tau": _jsonable_tau(tau), "options": opts, "rows_inplace": draw(st.booleans())}
 
 
 def _jsonable_tau(tau):
@@ -89,10 +90,21 @@ def transform(rec, tau):
 def evaluate(case):
     rec, tau, opts = case["recipe"], case["tau"], case["options"]
     rec2, jmap, tmaps = transform(rec, tau)
-    na, nb = build(rec), build(rec2)
+    if case.get("rows_inplace") and rec2.get("row_order"):
+        # the rows are re-ordered on a net object that has already been calculated (the user sorts / shuffles a table of a net
+        # that holds results), then it is calculated again
+        ro = rec2.pop("row_order")
+        na, nb = build(rec), build(rec2)
+        solve(nb, **opts)
+        for t, order in ro.items():
+            if t in nb and len(nb[t]):
+                listed = [i for i in order if i in nb[t].index]
+                nb[t] = nb[t].loc[listed + [i for i in nb[t].index if i not in set(listed)]]
+    else:
+        na, nb = build(rec), build(rec2)
     ra, rb = solve(na, **opts), solve(nb, **opts)
     f = []
-    labels = {"tau:" + k for k in tau["kinds"]} | {"mode:" + opts["mode"]}
+    labels = {"tau:" + k for k in tau["kinds"]} | {"mode:" + opts["mode"]} | ({"rows_reordered_on_a_calculated_net"} if case.get("rows_inplace") and "rows" in tau["kinds"] else set())
     has_lift = any(e["table"] in ("pump", "compressor") for e in rec["elements"])
     if ra.status != rb.status and has_lift:
         # pump / compressor lifts are discontinuous at zero flow; such nets can have several solutions or none that
@@ -111,6 +123,9 @@ def evaluate(case):
         return Outcome(findings=f, labels=labels, nontrivial=True, sample=_sample(case))
     if not ra.ok:
         return Outcome(discard=ra.status)
+    from ..compare import laminar_under_turbulent_model
+    if laminar_under_turbulent_model(opts, na, nb):
+        return Outcome(discard="laminar_branch_under_turbulent_only_friction_model")
     imaps = dict(tmaps)
     imaps["junction"] = jmap
     diffs = compare_nets(na, nb, index_maps=imaps)
